@@ -288,6 +288,10 @@ class Elem:
                 return sp.Integer(1)
             if short in ("zeros", "zeros_like"):
                 return sp.Integer(0)
+            if short in ("empty", "empty_like"):
+                return sp.Symbol("UNINIT")
+            if short == "broadcast_arrays":
+                return tuple(self.expr(a) for a in e.args)
             args = [self.expr(a) for a in e.args]
             if short in UFUNCS and len(args) == 1:
                 return UFUNCS[short](args[0])
